@@ -1,2 +1,42 @@
-(* placeholder until SlabProofs.v is written *)
-From FV Require Import Slab.SlabModel.
+(* C04 -- slab pool tolerates map() failure at any point.
+   Every theorem is about the model coq/Slab/SlabModel.v for EVERY state s (reachable or not), every op, every
+   configuration with cfg_ok; "needs a mapping" is the decidable [map_len c s o = Some len]. *)
+From Coq Require Import List NArith Bool.
+From FV Require Import Slab.SlabModel Slab.SlabFail.
+Import ListNotations.
+Local Open Scope N_scope.
+
+(* Whenever the allocate / realloc needs a mapping and the policy answers 0 (MapFail or MapRet 0): the state after the
+   call is EQUAL to the state before (live blocks, their contents log, free lists, partial trees, used pages, ghost
+   counters: nothing leaked, the realloc source block untouched), the result is null (or the call was stopped by an
+   assertion/UB that C01 excludes for admissible histories) and the only policy call made is the failing map. *)
+Theorem C04_map_failure_transparent :
+  forall c s o len e,
+    cfg_ok c = true -> map_len c s o = Some len -> op_env o = Some e -> env_ret e = 0 ->
+    st_of (step c s o) = s
+    /\ (res_of (step c s o) = RNull \/ is_stop (res_of (step c s o)) = true)
+    /\ (res_of (step c s o) = RNull ->
+        policy_calls (cbs_of (step c s o)) = [CMap len (if aligned c then sb c else 0) 0]).
+Proof. exact map_failure_transparent. Qed.
+Print Assumptions C04_map_failure_transparent.
+
+(* "The pool keeps working": the rest of the history runs exactly as if the failed call had not been made. *)
+Theorem C04_failed_call_invisible :
+  forall c s o len e rest,
+    cfg_ok c = true -> map_len c s o = Some len -> op_env o = Some e -> env_ret e = 0 ->
+    run_from c s (o :: rest) = run_from c s rest /\
+    trace_from c s (o :: rest) = (res_of (step c s o), cbs_of (step c s o)) :: trace_from c s rest.
+Proof. exact failed_op_is_invisible. Qed.
+Print Assumptions C04_failed_call_invisible.
+
+(* non-vacuity: first slab of a class, large frame, and the allocate inside a copying realloc, each failing *)
+Definition c04_cfg : cfg := mkCfg 4096 4096 4096 4 true true 40 104.
+Example C04_hyps_satisfiable :
+  cfg_ok c04_cfg = true
+  /\ map_len c04_cfg (init c04_cfg) (Alloc 24 MapFail) = Some 4096
+  /\ map_len c04_cfg (init c04_cfg) (Alloc 100 MapFail) = Some 8192
+  /\ (let s := run c04_cfg [Alloc 24 (MapRet 4096)] in
+      map_len c04_cfg s (Realloc 8160 60 MapFail) = Some 4096
+      /\ step c04_cfg s (Realloc 8160 60 MapFail) = (s, RNull, [CAccess false 4096 104; CMap 4096 4096 0])
+      /\ res_of (step c04_cfg s (Realloc 8160 60 (MapRet 8192))) = RPtr 12224).
+Proof. vm_compute. repeat split; reflexivity. Qed.
